@@ -528,6 +528,29 @@ def r14i(ctx, rep, cr):
     rep.floor('R14i', 'edge-adding calls in delegate', n, 1)
 
 
+def r14j(ctx, rep, cr):
+    rep.rule('R14j', 'the expiry sweep always looks: GrantTTLTracker::get_expired — the only place where a TTL is enforced, called before every '
+                     'access decision — cannot return without having examined the heap (BinaryHeap::peek / pop on GrantTTLTracker.heap). A '
+                     'sweep that gives up when the heap mutex is busy (try_lock) reports nothing expired, and the access check that follows '
+                     'serves a grant whose deadline has passed')
+    f = rep.require_fn('R14j', cr, 'tensor_vault::ttl::GrantTTLTracker::get_expired')
+    if f is None:
+        return
+    rep.analysed(f)
+    looks = [c for c in A.calls(f) if re.search(r'BinaryHeap::<T(, A)?>::(peek|pop|peek_mut|is_empty|len|iter|drain\w*|into_\w+)$', c.resolved)]
+    if not rep.floor('R14j', 'heap reads in get_expired', len(looks), 1):
+        return
+    R = A.reachable(f, [0], cut_blocks={c.bb for c in looks})
+    tl = [c for c in A.calls(f) if re.search(r'::try_lock\w*$|::try_write\w*$|::try_read\w*$', c.resolved)]
+    rets = [r for r in A.return_blocks(f) if r in R]
+    if rets:
+        rep.violation('R14j', f, 'sweep-can-skip-the-heap', f.loc((tl[0].line if tl else f.line)),
+                      'get_expired can return without looking at the heap%s: expired grants are not reported, and the access decision made '
+                      'right after it honours them' % (' (a try_lock that fails returns at once)' if tl else ''))
+    else:
+        rep.holds('R14j', f, 'sweep', 'every return has examined the heap')
+
+
 def run(ctx, rep):
     cr = ctx.crate('tensor_vault')
     cg = ctx.callgraph(['tensor_vault'])
@@ -540,3 +563,4 @@ def run(ctx, rep):
     r14g(ctx, rep, cr)
     r14h(ctx, rep, cr)
     r14i(ctx, rep, cr)
+    r14j(ctx, rep, cr)
